@@ -638,8 +638,8 @@ def shrink(case):
 
 class C07(Check):
     title = "Filtered specs keep exactly the lines that match a registered filter"
-    quick = dict(runs=40000, wall=100)
-    thorough = dict(runs=1200000, wall=1500)
+    quick = dict(runs=100000, wall=100)
+    thorough = dict(runs=2500000, wall=1500)
     rule = ("case = history of 5-28 (thorough 40) operations on the real filter registry: add_filter(target in {registry point, "
             "implementation, parser, combiner, chained datasource}, str | list | set, budget) incl. the documented rejections, "
             "get_filters(ds[, True]), late definition of implementation classes / parsers / combiners / chained datasources in "
